@@ -1690,7 +1690,7 @@ def tier_c(run, thorough):
                     c.update(n_t=2, t_desc=[])
                 chk_one(orc_dataset, c, {})
         for k in AXIS_KINDS:
-            for n in (1, 2, 3):
+            for n in ((1, 3) if (k in SWEEP_AXIS and not thorough) else (1, 2, 3)):
                 for where in ('rdm_desc', 'pat_desc'):
                     c = dict(n_rdm=n, n_cond=n + 1, desc=[], rdm_desc=[], pat_desc=[], fmt=fmt, target='path')
                     c[where] = [k]
@@ -1808,6 +1808,8 @@ def tier_c(run, thorough):
             for extra, ic in ((dict(unit=1e-26), 'extreme-units'), (dict(unit=1e12), 'extreme-units'),
                               (dict(ev_dtype='float32'), 'typed-data'), (dict(names_dup=True, model_vals='precise'), 'repeated-names'),
                               (dict(model_vals='tiny', unit=1e-13), 'extreme-units')):
+                if not thorough and n_model == 12 and ic != 'typed-data' and extra.get('unit') != 1e-26:
+                    continue
                 for vk, cvm, nd, nc in ((('2d-nc', 'bootstrap_rdm', 3, '1d'), ('3d-nc', 'bootstrap_crossval', 4, '2d'), ('1d', 'fixed', 3, '1d'))
                                         if thorough else (('2d-nc', 'bootstrap_rdm', 3, '1d'),)):
                     bd.check(orc_result, dict(n_model=n_model, model_kinds=mixes[1], variances=vk, n_rdm=8, n_pattern=4, cv_method=cvm,
@@ -1851,8 +1853,8 @@ def tier_c(run, thorough):
                 bd.check(orc_overwrite, dict(kind=kind, fmt=fmt, target=target), 'generic',
                          function='remove_file' if target == 'file' else 'write_dict_hdf5')
                 # sweep: what the existing file holds
-                for old in (('smaller', 'same', 'empty-file', 'garbage', 'other-format') if (thorough or kind in ('rdms', 'temporal'))
-                            else ('empty-file', 'other-format') if kind == 'dataset' else ('smaller',)):
+                for old in (('smaller', 'same', 'empty-file', 'garbage', 'other-format') if (thorough or kind == 'rdms')
+                            else ('empty-file', 'other-format') if kind == 'temporal' else ('smaller',)):
                     bd.check(orc_overwrite, dict(kind=kind, fmt=fmt, target=target, old=old), 'existing-file-' + old,
                              function='remove_file' if target == 'file' else 'write_dict_hdf5')
     bd.done()
